@@ -135,6 +135,13 @@ def check_property(prop: str, tier: str, seed: int) -> int:
     spec = PROPS[prop]
     timeout_ms = 20000 if tier == "quick" else 120000
     results, trusted = run_proofs(spec.get("areas", []), prop, timeout_ms)
+    if spec.get("custom"):
+        try:
+            results = results + importlib.import_module(spec["custom"]).run_custom(tier)
+        except Exception:
+            results.append({"kind": "fn", "area": spec["custom"], "key": spec["custom"], "fn": spec["custom"], "status": "crash",
+                            "error": traceback.format_exc()[-1200:], "paths": 0, "infeasible_paths": 0, "src_sha": "", "fn_hash": "",
+                            "canary": "", "seconds": 0, "obligations": [], "sample_smt2": "", "props": [], "note": ""})
     lock = load_lock()
     known = load_known()
     lines: list[str] = []
@@ -279,6 +286,8 @@ def make_lock() -> None:
     functions: dict[str, str] = {}
     for prop, spec in PROPS.items():
         results, _ = run_proofs(spec.get("areas", []), prop, 20000)
+        if spec.get("custom"):
+            results = results + importlib.import_module(spec["custom"]).run_custom("quick")
         for r in results:
             if r["status"] == "ok" and all(o["status"] == "discharged" for o in r["obligations"]) and r["obligations"]:
                 functions[r["key"]] = r["fn_hash"]
